@@ -22,7 +22,8 @@ cargo test --offline $FEAT --test seed_demo >$DIR/demo_with.log 2>&1; DEMO_WITH=
 rm tests/seed_demo.rs
 cargo test --workspace --no-fail-fast --offline >$DIR/suite_with.log 2>&1
 FAILED=$(grep -E "^test .* \.\.\. FAILED" $DIR/suite_with.log | sed 's/^test //; s/ \.\.\. FAILED//' | sort | tr '\n' ' ')
-PASSED=$(grep -cE "^test .* \.\.\. ok" $DIR/suite_with.log)
+# sum of the "N passed" figures of the result lines (per-test lines can be interleaved with test output)
+PASSED=$(grep -E "^test result:" $DIR/suite_with.log | sed -E 's/.* ([0-9]+) passed.*/\1/' | paste -sd+ | bc)
 cd /
 git -C /repo worktree remove --force $WT
 git -C /repo worktree prune
